@@ -542,11 +542,11 @@ func aeDegenerate(s *Shard, prop string, fn func(c *Case)) {
 	for _, same := range []float64{3, 7, 7.3, 0.1, -2.2, 1e9 + 0.3} {
 		for _, spec := range specs {
 			for _, types := range [][]string{{"gain", "gain"}, {"gain", "cost"}, {"cost", "gain"}} {
-				Product([]int{3, 3, 3}, func(idx []int) {
+				Product([]int{4, 4, 4}, func(idx []int) {
 					if !s.Take() {
 						return
 					}
-					lv := []float64{0.5, 1.7, 2.9}
+					lv := []float64{0.5, 1.7, 2.9, 2.85} // 2.85: inside the last tenth of the range, decided by the last level only
 					vals := [][]float64{{lv[idx[0]], same}, {lv[idx[1]], same}, {lv[idx[2]], same}}
 					for _, w := range [][]float64{{2, 1}, {1, 2}} {
 						cfg := aeCfg{N: 3, Vals: vals, Types: types, Weights: w, Spec: spec}
@@ -558,9 +558,43 @@ func aeDegenerate(s *Shard, prop string, fn func(c *Case)) {
 	}
 }
 
+// aeRelatedIDs: a criterion id that is another criterion id followed by a digit (c1 / c11, k / k1), twelve explicit levels,
+// one alternative failing the longer id at level 1 and one failing the shorter id at level 11 (id and level index spell the
+// same string); every listing of the three alternatives, both weight orders.
+func aeRelatedIDs(s *Shard, prop string, fn func(c *Case)) {
+	for _, ids := range [][]string{{"c1", "c11"}, {"k", "k1"}, {"1", "11"}} {
+		for _, w := range [][]float64{{1, 2}, {2, 1}} {
+			for _, order := range [][]int{{0, 1, 2}, {1, 0, 2}, {2, 1, 0}, {1, 2, 0}} {
+				if !s.Take() {
+					continue
+				}
+				alts := []string{"a", "b", "c"}
+				vals := [][]float64{{100, 0.5}, {10.5, 100}, {100, 100}}
+				var la []string
+				var lv [][]float64
+				for _, o := range order {
+					la, lv = append(la, alts[o]), append(lv, vals[o])
+				}
+				var ths L
+				for k := 0; k < 12; k++ {
+					ths = append(ths, M{ids[0]: float64(k), ids[1]: float64(k)})
+				}
+				r := genericRequest("aspectEliminationHeuristic", ids, -1, la, lv, la, w)
+				r = withMP(r, M{"function": "thresholds", "params": M{"thresholds": ths}})
+				fn(&Case{Prop: prop, Kind: "aspect", Req: r})
+			}
+		}
+	}
+}
+
 func c12Run(s *Shard) {
 	cur = s
 	majoritySample := 0
+	aeRelatedIDs(s, "C12", func(c *Case) {
+		s.Evals++
+		s.Begin(c)
+		s.Report(c12Check(c))
+	})
 	aeDegenerate(s, "C12", func(c *Case) {
 		s.Evals++
 		s.Begin(c)
